@@ -22,7 +22,7 @@ def gen_image(rng, tier):
     meta = {"fragmented": False, "multi_sector": False, "exact_fill": False}
     nparts = 1 if rng.random() < 0.8 else 2
     for pi in range(nparts):
-        size = rng.choice([40, 48, 64])
+        size = rng.choice([48, 64, 80])
         vols = []
         used_v = set()
         for vi in range(rng.randint(1, 3)):
@@ -43,6 +43,9 @@ def gen_image(rng, tier):
                     k = rng.randint(1, 2)
                     nw = (k * SECTOR - 140) // 2 + rng.choice([-1, 0, 0, 1])
                     meta["exact_fill"] = True
+                elif kind < 0.7:
+                    nw = rng.randint(3, 6) * SECTOR // 2 - rng.randint(70, 3000)      # 3-6 sectors
+                    meta["multi_sector"] = True
                 else:
                     nw = rng.randint(2, 6000)
                 # make L/R partners equal length most of the time
@@ -70,7 +73,7 @@ def gen_image(rng, tier):
                                   res_flag=rng.choice([AW.SAT_RES_STD, AW.SAT_RES_V2])))
         parts.append(AW.Partition(vols, size_sectors=size))
     # allocation order
-    mode = rng.choice(["contig", "reversed", "shuffled", "interleaved", "shuffled"])
+    mode = rng.choice(["contig", "reversed", "shuffled", "interleaved", "shuffled", "midswap", "midswap"])
     meta["alloc"] = mode
 
     def order(free, n):
@@ -80,6 +83,15 @@ def gen_image(rng, tier):
             return list(reversed(free[:n]))
         if mode == "interleaved":
             return free[::2][:n] if len(free[::2]) >= n else free[:n]
+        if mode == "midswap":
+            # a gap-free range entered at its lowest and left at its highest sector, the middle out of order
+            r = free[:n]
+            mid = r[1:-1]
+            if len(mid) >= 2:
+                rng.shuffle(mid)
+                if mid == r[1:-1]:
+                    mid = mid[::-1]
+            return r[:1] + mid + r[-1:] if n >= 2 else r
         pick = rng.sample(free[:min(len(free), n + 6)], n)
         return pick
     allocs = [AW.Allocator(p.size_sectors, order) for p in parts]
@@ -193,6 +205,9 @@ def corpus_images():
     nw2 = (3 * SECTOR - 140) // 2 - 5
     g = AW.SampleFile(name="BACK", pcm=struct.pack("<%dH" % nw2, *[(7 * i) % 65536 for i in range(nw2)]), sectors=[17, 9, 12])
     out.append(("d4-head-not-lowest", [AW.Partition([AW.Volume("V", [g])], size_sectors=40)], None))
+    nw3 = (5 * SECTOR - 140) // 2 - 9
+    m = AW.SampleFile(name="MIDSWAP", pcm=struct.pack("<%dH" % nw3, *[(5 * i + 1) % 65536 for i in range(nw3)]), sectors=[20, 22, 21, 23, 24])
+    out.append(("midswap-contiguous-range", [AW.Partition([AW.Volume("V", [m])], size_sectors=40)], None))
     h = AW.SampleFile(name="EMPTYWIN", pcm=struct.pack("<3H", 11, 22, 33), start=1, end=1)
     out.append(("d13-empty-window", [AW.Partition([AW.Volume("V", [h])], size_sectors=40)], None))
     u = AW.SampleFile(name="LOWTUNE", pcm=struct.pack("<4H", 1, 2, 3, 4), note=24, semi=-128)
